@@ -308,6 +308,10 @@ def compile_level(ctx):
             glyphs.append({"name": "uni0041", "width": 500, "unicodes": [], "contours": [[(0, 0, "line"), (77, 0, "line"), (30, 90, "line")]]})
             names.append("uni0041")
             ctx.klass("bytes: literal uniXXXX name after the glyph that generates it")
+        if i % 4 == 2:
+            # a lib switch that the EXPLICIT useProductionNames argument overrides (both ways): asking not to keep glyph names
+            desc["lib"]["com.github.googlei18n.ufo2ft.keepGlyphNames"] = False
+            ctx.klass("bytes: keepGlyphNames=False in the lib, explicit argument given")
         flavor, kw = [("ttf", {}), ("otf", {"cffVersion": 1}), ("otf", {"cffVersion": 2})][i % 3]
         if i % 4 in (1, 3):
             # (the crossing-rename and literal-name cases: CFF first, then CFF2, then TrueType)
